@@ -198,6 +198,30 @@ class Fn:
             line = b['term'].get('line')
         else:
             line = b['stmts'][idx].get('line', b['term'].get('line'))
+        if not line or line < self.line:
+            # synthetic blocks (drop ladders) carry line 1: fall back to a statement or a predecessor
+            cand = [s.get('line') for s in b['stmts'] if s.get('line') and s.get('line') >= self.line]
+            if cand:
+                line = cand[-1]
+            else:
+                seen = {bb}
+                cur = [bb]
+                line = self.line
+                for _ in range(12):
+                    nxt = []
+                    for x in cur:
+                        for p in self.pred[x]:
+                            if p not in seen:
+                                seen.add(p)
+                                nxt.append(p)
+                    ls = [self.blocks[p]['term'].get('line') for p in nxt]
+                    ls = [l for l in ls if l and l >= self.line]
+                    if ls:
+                        line = max(ls)
+                        break
+                    cur = nxt
+                    if not cur:
+                        break
         return '%s:%s' % (self.file, line)
 
     # ---- CFG
